@@ -57,7 +57,7 @@ Lemma wi_new_length ws cum total scale :
   wi_new ws = WOk cum total scale -> S (length cum) = length ws.
 Proof.
   intros H. destruct (wi_new_spec _ _ _ _ H) as (w0 & r & -> & _ & _ & Hc & _).
-  apply (f_equal (@length _)) in Hc. rewrite app_length, scan_length in Hc. simpl in *. lia.
+  apply (f_equal (@length _)) in Hc. rewrite app_length, scan_length in Hc. cbn [length] in *. lia.
 Qed.
 
 Lemma filter_length_le' {A} (f : A -> bool) l : length (filter f l) <= length l.
@@ -210,7 +210,8 @@ Section NextG.
     unfold resample.
     destruct (exclude_ok c st (ch_z ch) Hwf Hi Hz) as [st1 [E1 [Hi1 [Ha1 [Hs1 Hc1]]]]].
     rewrite E1. cbn [rbind]. unfold prepare_pssm.
-    destruct (bg_total (st_bg st1)) as [t|e|s|] eqn:Eb; cbn [rbind]; try discriminate.
+    rewrite (bg_total_cases c st1 Hwf Hi1).
+    destruct (bg_sum c (st_active st1) (st_starts st1) =? 0)%N; cbn [rbind]; [discriminate|].
     { assert (Hu : exists st2, update_holdout c st1 (ch_z ch) (ch_upd ch) = Ok st2 \/
                                update_holdout c st1 (ch_z ch) (ch_upd ch) = Panic 8).
       { unfold update_holdout. destruct (ch_upd ch) as [|p|] eqn:Eu.
@@ -233,13 +234,227 @@ Section NextG.
       { destruct (cMode c), (nth (ch_z ch) (st_active st) false); try exact I.
         apply zoops_test_safe; auto.
         destruct Hc1 as [Ha [Hb _]]. destruct Hctl2 as [Hc [Hd _]]. destruct Hctl3 as [He [Hf _]].
-        rewrite <- He, <- Hf, <- Hc, <- Hd, <- Ha, <- Hb. exact Hlast. }
+        rewrite He, Hf, Hc, Hd, Ha, Hb. exact Hlast. }
       destruct (match cMode c, nth (ch_z ch) (st_active st) false with
                 | Zoops, false => zoops_test c st3 (ch_z ch) (ch_accept ch)
                 | _, _ => Ok st3
                 end) as [st4|e|s|]; cbn [rbind]; try discriminate; try contradiction.
       destruct (st_step st4 + 1 <=? usize_max)%N; discriminate. }
-    all: unfold bg_total in Eb; destruct (sum_usize (st_bg st1) 0) as [tt| | |]; cbn [rbind] in Eb;
-      try discriminate; destruct (tt =? 0)%N; discriminate.
+  Qed.
+  Lemma range_to_window p W len : W <= len -> p < len + 1 - W -> p + W <= len.
+  Proof. lia. Qed.
+
+  Lemma choice_of_safe c st z word :
+    WF c -> CInv c st -> z < length (cData c) ->
+    match choice_of c st z word with
+    | Ok ch => ch_z ch = z /\ forall p, ch_upd ch = UNew p -> p + cW c <= length (nth z (cData c) [])
+    | Panic s => s = 7 \/ s = 8
+    | Err e => e = 5
+    | OutOfFuel => True
+    end.
+  Proof.
+    intros Hwf Hi Hz.
+    assert (Hlen : cW c <= length (nth z (cData c) [])).
+    { apply (Forall_nth_lt _ _ z [] (wf_len c Hwf) Hz). }
+    pose proof (choice_of_spec c st z word) as Hspec.
+    unfold SamplerF32.choice_of in *.
+    destruct (exclude_ok c st z Hwf Hi Hz) as [st1 [E1 [Hi1 [Ha1 [Hs1 Hc1]]]]].
+    rewrite E1 in *. cbn [rbind] in *.
+    destruct (pssm_of (cK c) flog2 (st_motif st1) (st_bg st1)) as [p1|e|s|] eqn:Ep; cbn [rbind] in *.
+    2,3,4: unfold pssm_of in Ep; destruct (bg_from_counts F32ops (st_bg st1)); inversion Ep; auto.
+    pose proof (draw_outcomes fexp2 (cW c) (snd p1) (nth z (cData c) []) word) as Hd.
+    destruct (draw fexp2 (cW c) (snd p1) (nth z (cData c) []) word) as [u|e|s|]; cbn [rbind] in *; auto; try contradiction.
+    assert (Hu : (exists st2, update_holdout c st1 z u = Ok st2) \/ update_holdout c st1 z u = Panic 8).
+    { unfold update_holdout. destruct u as [|p|].
+      - left; eexists; reflexivity.
+      - left. apply Nat.ltb_lt in Hz. rewrite Hz.
+        pose proof (range_to_window p _ _ Hlen Hd) as Hp. apply Nat.leb_le in Hp. rewrite Hp. cbn [andb].
+        rewrite (ci_starts_len c st1 Hi1). rewrite Hz. eexists; reflexivity.
+      - right; reflexivity. }
+    destruct Hu as [[st2 E2]|E2]; rewrite E2 in *; cbn [rbind] in *; auto.
+    assert (Hz1 : nth z (st_active st1) false = false).
+    { rewrite Ha1. apply nth_upd_same. rewrite (ci_act_len c st Hi). auto. }
+    destruct (update_ok c st1 _ _ st2 Hi1 Hz1 E2) as [Hi2 _].
+    destruct (include_ok c st2 _ Hwf Hi2 Hz) as [st3 [E3 _]].
+    rewrite E3 in *. cbn [rbind] in *.
+    match goal with
+    | |- match ?e with _ => _ end => destruct e as [ch| | |] eqn:Ech
+    end.
+    - destruct (Hspec ch eq_refl) as [Hcz [st1' [p1' [_ [_ [_ Hr]]]]]]. split; auto.
+      intros p Hpu. apply range_to_window; auto.
+    - exfalso. destruct (match cMode c with Zoops => negb (nth z (st_active st) false) | Oops => false end);
+        [destruct (pssm_of (cK c) flog2 (st_motif st3) (st_bg st3))|]; discriminate.
+    - exfalso. destruct (match cMode c with Zoops => negb (nth z (st_active st) false) | Oops => false end);
+        [destruct (pssm_of (cK c) flog2 (st_motif st3) (st_bg st3))|]; discriminate.
+    - exact I.
+  Qed.
+
+  Theorem next_g_safe c st z word :
+    WF c -> seed_ok c -> Inv c st -> allowed_g (next_g c st z word).
+  Proof.
+    intros Hwf Hseed Hinv. pose proof Hinv as [Hi Hlast Hoops]. unfold SamplerF32.next_g.
+    destruct (st_conv st); [exact I|].
+    pose proof (select_holdout_safe c st z Hseed Hi) as Hsel.
+    destruct (select_holdout c st z) as [z'|e|s|]; cbn [rbind allowed_g]; try lia; try contradiction.
+    destruct Hsel as [-> Hz].
+    pose proof (choice_of_safe c st z word Hwf Hi Hz) as Hc.
+    destruct (choice_of c st z word) as [ch|e|s|]; cbn [rbind allowed_g]; try lia; auto.
+    destruct Hc as [Hcz Hp].
+    pose proof (next_safe c st ch Hwf Hseed Hinv) as Hs.
+    assert (Hn4 : next c st ch <> Err 4).
+    { apply next_no_err4; auto. rewrite Hcz. exact Hp. }
+    destruct (next c st ch) as [x|e|s|]; cbn [allowed allowed_g] in *; auto; try contradiction.
+    destruct Hs as [->| ->]; [left; reflexivity|]. exfalso. apply Hn4. reflexivity.
+  Qed.
+
+  (* whole runs driven by (hold-out, word) pairs *)
+  Theorem run_g_inv c zws :
+    WF c -> seed_ok c -> forall st, Inv c st ->
+    match run_g c st zws with
+    | Ok t => length t = length zws /\ trace_ok c st t
+    | r => allowed_g r
+    end.
+  Proof.
+    intros Hwf Hseed. induction zws as [|[z w] r IH]; intros st Hinv.
+    - simpl. auto.
+    - cbn [SamplerF32.run_g fst snd]. pose proof (next_g_safe c st z w Hwf Hseed Hinv) as Hs.
+      destruct (next_g c st z w) as [[st' oit]|e|s|] eqn:En; cbn [rbind]; auto.
+      destruct (next_g_inv c st z w st' oit Hwf Hinv En) as [Hinv' Hpost].
+      cbn [fst]. specialize (IH st' Hinv').
+      destruct (run_g c st' r) as [t|e|s|]; cbn [rbind]; auto.
+      destruct IH as [Hlen Ht]. split; [simpl; congruence|].
+      cbn [trace_ok]. auto.
+  Qed.
+
+  (* a run of next_g is a run of next with the computed choices *)
+  Lemma run_g_is_run c zws : forall st t,
+    run_g c st zws = Ok t -> exists chs, run c st chs = Ok t /\ map ch_z chs = map fst zws.
+  Proof.
+    induction zws as [|[z w] r IH]; intros st t H.
+    - simpl in H. inversion H; subst. exists []. split; reflexivity.
+    - cbn [SamplerF32.run_g fst snd] in H.
+      destruct (next_g c st z w) as [x| | |] eqn:En; cbn [rbind] in H; try discriminate.
+      destruct (run_g c (fst x) r) as [t'| | |] eqn:Er; cbn [rbind] in H; try discriminate.
+      inversion H; subst.
+      destruct (next_g_is_next _ _ _ _ _ En) as (ch & Hn & Hz & _).
+      destruct (IH _ _ Er) as (chs & Hr & Hm).
+      exists (ch :: chs). split; [|simpl; congruence].
+      cbn [run]. rewrite Hn. cbn [rbind]. rewrite Hr. reflexivity.
   Qed.
 End NextG.
+
+(* ---------- the Zoops decision ---------- *)
+
+Section Zoops.
+  Variable flog2 : F32.t -> F32.t.
+  Variable fpow2 : F32.t -> F32.t.
+  Variable fexp2 : F64.t -> F64.t.
+
+  Local Notation choice_of := (choice_of flog2 fpow2 fexp2).
+  Local Notation next_g := (next_g flog2 fpow2 fexp2).
+
+  Definition ic_of (p : list F32.t * fmatrix) : F32.t := info_content fpow2 (fst p) (snd p).
+
+  (* in a trial (Zoops, hold-out not active) the flag of the computed choice is the
+     comparison of the two information contents: reject iff IC(new) < IC(old) *)
+  Lemma choice_of_accept c st z word ch st1 p1 st2 st3 p3 :
+    choice_of c st z word = Ok ch ->
+    zoops_trial c st z = true ->
+    exclude_sequence c st z = Ok st1 ->
+    pssm_of (cK c) flog2 (st_motif st1) (st_bg st1) = Ok p1 ->
+    update_holdout c st1 z (ch_upd ch) = Ok st2 ->
+    include_sequence c st2 z = Ok st3 ->
+    pssm_of (cK c) flog2 (st_motif st3) (st_bg st3) = Ok p3 ->
+    ch_accept ch = negb (F32.lt (ic_of p3) (ic_of p1)).
+  Proof.
+    unfold SamplerF32.choice_of, zoops_trial. intros H Ht E1 Ep1.
+    rewrite E1 in H. cbn [rbind] in H. rewrite Ep1 in H. cbn [rbind] in H.
+    destruct (draw fexp2 (cW c) (snd p1) (nth z (cData c) []) word) as [u| | |]; cbn [rbind] in H; try discriminate.
+    destruct (update_holdout c st1 z u) as [st2'| | |] eqn:E2; cbn [rbind] in H; try discriminate.
+    destruct (include_sequence c st2' z) as [st3'| | |] eqn:E3; cbn [rbind] in H; try discriminate.
+    rewrite Ht in H.
+    destruct (pssm_of (cK c) flog2 (st_motif st3') (st_bg st3')) as [p3'| | |] eqn:Ep3;
+      inversion H; subst ch; cbn [ch_upd ch_accept]; intros E2' E3' Ep3';
+      rewrite E2 in E2'; inversion E2'; subst st2'; rewrite E3 in E3'; inversion E3'; subst st3';
+      rewrite Ep3 in Ep3'; inversion Ep3'; subst; reflexivity.
+  Qed.
+
+  Lemma next_it_z c st ch st' it :
+    seed_ok c -> CInv c st -> next c st ch = Ok (st', Some it) -> it_z it = ch_z ch.
+  Proof.
+    intros Hseed Hi. unfold next. destruct (st_conv st); [discriminate|].
+    pose proof (select_holdout_safe c st (ch_z ch) Hseed Hi) as Hsel.
+    destruct (select_holdout c st (ch_z ch)) as [z| | |]; cbn [rbind]; try discriminate.
+    destruct Hsel as [-> _].
+    destruct (bv_test (st_active st) (ch_z ch)); cbn [rbind]; try discriminate.
+    destruct (resample c st (ch_z ch) (ch_upd ch)); cbn [rbind]; try discriminate.
+    match goal with |- context [rbind ?e _] => destruct e end; cbn [rbind]; try discriminate.
+    match goal with |- context [if ?b then _ else _] => destruct b end; [|discriminate].
+    intros H. inversion H; subst. reflexivity.
+  Qed.
+
+  Theorem zoops_decision c st z word st' it :
+    WF c -> seed_ok c -> Inv c st ->
+    next_g c st z word = Ok (st', Some it) ->
+    zoops_trial c st z = true ->
+    exists ch,
+      choice_of c st z word = Ok ch /\ it_z it = z /\
+      nth z (st_active st') false = ch_accept ch /\
+      st_last st' = (if ch_accept ch then st_step st else st_last st) /\
+      st_conv st' = (cPatience c <? st_step st - st_last st')%N /\
+      (forall st1 p1 st2 st3 p3,
+         exclude_sequence c st z = Ok st1 ->
+         pssm_of (cK c) flog2 (st_motif st1) (st_bg st1) = Ok p1 ->
+         update_holdout c st1 z (ch_upd ch) = Ok st2 ->
+         include_sequence c st2 z = Ok st3 ->
+         pssm_of (cK c) flog2 (st_motif st3) (st_bg st3) = Ok p3 ->
+         ch_accept ch = negb (F32.lt (ic_of p3) (ic_of p1))).
+  Proof.
+    intros Hwf Hseed Hinv Hn Ht.
+    destruct (next_g_is_next _ _ _ _ _ _ _ _ Hn) as (ch & Hnext & Hz & Hc).
+    assert (Hconv : st_conv st = false).
+    { unfold next in Hnext. destruct (st_conv st); [discriminate|reflexivity]. }
+    destruct (Hc Hconv) as [_ Hch].
+    pose proof (next_it_z c st ch st' it Hseed (inv_core c st Hinv) Hnext) as Hitz.
+    rewrite Hz in Hitz.
+    destruct (next_bookkeeping c st ch st' it Hwf Hinv Hnext) as (_ & Ha & Hl & Hcv).
+    rewrite Hitz, Ht in *. cbn [andb] in *.
+    exists ch. repeat split; auto.
+    intros st1 p1 st2 st3 p3. apply (choice_of_accept c st z word ch st1 p1 st2 st3 p3 Hch Ht).
+  Qed.
+End Zoops.
+
+(* ---------- sampler_inv for the float-driven run ---------- *)
+
+Section RunG.
+  Variable freq : N -> N -> Z.
+  Variable flog2 : F32.t -> F32.t.
+  Variable fpow2 : F32.t -> F32.t.
+  Variable fexp2 : F64.t -> F64.t.
+
+  Theorem new_run_g_holds K W data wraps m initial inertia patience starts0 seeds0 zws :
+    data_ok K W data ->
+    Forall (fun wr => (W <= wr)%nat) wraps ->
+    starts_in_range W data starts0 = true ->
+    (m = Zoops -> seeds_ok (length data) initial seeds0) ->
+    exists c st0,
+      new_ K W data wraps m initial inertia patience starts0 seeds0 = Ok (c, st0) /\
+      match run_g flog2 fpow2 fexp2 c st0 zws with
+      | Ok t => length t = length zws /\
+                Holds_C16 freq K W data (report_of freq st0) (obs_of_trace freq t)
+      | r => allowed_g r
+      end.
+  Proof.
+    intros Hd Hw Hr Hs.
+    destruct (new_ok K W data wraps m initial inertia patience starts0 seeds0 Hd Hw Hr Hs)
+      as [c [st0 [E [Hwf [Hinv [Hc [_ [Hstep _]]]]]]]].
+    exists c, st0. split; [exact E|].
+    assert (Hseed : seed_ok c).
+    { unfold seed_ok. rewrite Hc. cbn [cSeed cData]. destruct m; [constructor|].
+      destruct (Hs eq_refl) as [_ [Hlt _]]. exact Hlt. }
+    pose proof (run_g_inv flog2 fpow2 fexp2 c zws Hwf Hseed st0 Hinv) as Hrun.
+    destruct (run_g flog2 fpow2 fexp2 c st0 zws) as [t|e|s|]; auto.
+    destruct Hrun as [Hlen Ht]. split; [exact Hlen|].
+    pose proof (run_holds freq c st0 t Hinv Hstep Ht) as H. rewrite Hc in H. cbn [cK cW cData] in H. exact H.
+  Qed.
+End RunG.
